@@ -1,3 +1,58 @@
-(* Further handlers (table stress, driver traces, engines); extended below. *)
-let handle (line : string) (_kind : string) (_args : string list) (_obs : string) : unit =
-  failwith ("unknown case kind: " ^ line)
+(* Transposition table sequences (C17, sequential part). *)
+open Model
+open Common
+open Conv
+
+let split_on c s = String.split_on_char c s
+let ws s = List.filter (fun w -> w <> "") (split_on ' ' s)
+
+let handle_ttseq line args obs =
+  match args with
+  | size :: "::" :: ops ->
+    let observed = ws obs in
+    if List.length observed <> List.length ops then failwith "ttseq: obs count";
+    (match new_table (n_of_int (int_of_string size)) with
+     | None -> failwith "ttseq: size"
+     | Some t0 ->
+       let t = ref t0 in
+       let written : (string, string list) Hashtbl.t = Hashtbl.create 16 in
+       List.iteri (fun i op ->
+           let o = List.nth observed i in
+           (match split_on ':' op with
+            | ["r"; h] ->
+              let m = (match tt_read !t (n_of_hex h) with
+                  | Some (((bound, d), sc), mv) ->
+                    Printf.sprintf "hit:%d:%d:%s:%d:%d:%d" (int_of_n bound) (int_of_z d) (Dispatch3.score_str sc) (int_of_n mv.mfrom) (int_of_n mv.mto) (int_of_n mv.mpromo)
+                  | None -> "miss") in
+              if m <> o then report_mismatch line (Printf.sprintf "op#%d: %s" i m);
+              bump (if o = "miss" then "tt/miss" else "tt/hit");
+              if o <> "miss" then begin
+                let ws_ = (try Hashtbl.find written h with Not_found -> []) in
+                if not (List.mem o ws_) then report_spec ~key:"prop=C17" line (Printf.sprintf "op#%d: lookup returned %s, which no single store for that hash wrote" i o)
+              end
+            | ["w"; h; bound; ply; depth; sc; f; to_; pr] ->
+              let mv = { mtype = N0; mfrom = n_of_int (int_of_string f); mto = n_of_int (int_of_string to_); mpiece = N0; mpromo = n_of_int (int_of_string pr); mcapture = N0 } in
+              let old = nthN !t.slots (key !t (n_of_hex h)) None in
+              let (t1, ok) = tt_write_ok !t (n_of_hex h) (n_of_int (int_of_string bound)) (z_of_int (int_of_string ply)) (z_of_int (int_of_string depth)) (Dispatch3.parse_score sc) mv in
+              t := t1;
+              let m = if ok then "w1" else "w0" in
+              if m <> o then report_mismatch line (Printf.sprintf "op#%d: %s" i m);
+              bump (if o = "w1" then (match old with None -> "tt/store-empty" | Some _ -> "tt/store-replace") else "tt/store-refused");
+              let tuple = Printf.sprintf "hit:%s:%d:%s:%s:%s:%s" bound ((int_of_string depth) land 65535) sc f to_ pr in
+              Hashtbl.replace written h (tuple :: (try Hashtbl.find written h with Not_found -> []))
+            | ["u"] ->
+              let (u, n) = tt_used !t in
+              let m = Printf.sprintf "u:%d:%d:%d:%d" (int_of_n n) (int_of_n (tt_occupied !t)) (int_of_n u) (32 * int_of_n n) in
+              if m <> o then report_mismatch line (Printf.sprintf "op#%d: %s" i m);
+              bump "tt/used";
+              (match split_on ':' o with
+               | ["u"; n; occ; used; _] ->
+                 if used <> occ then report_spec ~key:"prop=C17" line (Printf.sprintf "op#%d: fill counter %s but %s of %s slots occupied" i used occ n)
+               | _ -> ())
+            | _ -> failwith ("bad ttseq op " ^ op))) ops)
+  | _ -> failwith ("bad ttseq: " ^ short line)
+
+let handle (line : string) (kind : string) (args : string list) (obs : string) : unit =
+  match kind with
+  | "ttseq" -> handle_ttseq line args obs
+  | _ -> failwith ("unknown case kind: " ^ line)
